@@ -21,6 +21,9 @@ MANIFEST = {
 def gen_pred(rng, d):
     if d == 0 or rng.random() < 0.3:
         op = rng.choice(["==", "!=", "<", "<=", ">", ">="])
+        if rng.random() < 0.1:
+            # constants around the i32/i64/u64 boundaries (constant comparison must be exact there too)
+            return (op, rng.choice([2**31 - 1, 2**31, -(2**31), 2**53 + 1, 2**63 - 1, 2**63, 2**63 + 1, 2**64 - 1, -1, -2]))
         return (op, rng.randint(-8, 8))
     k = rng.random()
     if k < 0.2:
@@ -79,8 +82,10 @@ def gen_type(rng):
 
 
 def witness(p, q):
+    # comparison atoms change their truth value only at their constants: one representative per piece is exact
     cs = consts(p) + consts(q)
-    for v in range(min(cs) - 3, max(cs) + 4):
+    cand = sorted({c + d for c in cs for d in (-1, 0, 1)} | {min(cs) - 3, max(cs) + 3})
+    for v in cand:
         if ev(p, v) and not ev(q, v):
             return v
     return None
